@@ -251,6 +251,13 @@ def map_building(F, rep):
                     d, p, flag = tup[1]
                     dtxt, ptxt = show(d), show(p)
                     if "vest_fair_market_value" in ptxt:
+                        from roles import guards_of
+                        gtxt = [show(c) for c, v, sb in guards_of(x, xt, i)]
+                        indep = not any("fair_market_value_price" in g for g in gtxt)
+                        rep.ob("R2", f"{x.short}:vest-price-unconditional", indep,
+                               "the vest-date market value is used whenever it is present" if indep else
+                               "the vest-date market value is used only under a condition on the fallback price: the fallback can take precedence",
+                               x.loc(s["sp"]), key=f"R2:{x.short}:precedence")
                         okd = "vest_date" in dtxt
                         rep.ob("R2", f"{x.short}:vest-price-date", okd, "vest price is keyed by the vest date (parent date if absent)" if okd else
                                f"vest price is keyed by {dtxt[:60]}", x.loc(s["sp"]), key=f"R2:{x.short}:vest-price-date")
